@@ -5,7 +5,7 @@
        <nlines> { <nraws> <hextext> <hexraw>... } <nevents> { event }
      event = T <line> <hexdiag> <nops> { op } | S | P | X <exec 0|1>
      op    = RA <prefix> <from> <to> | RT <ri> <ti> <from> <to> | IA <t> | IB <t> | D | CC <ri>
-     -> "panic" | "<log>;<hexdisk>;<nops>;<lines>"
+     -> "panic" | "<log>;<hexdisk>;<nops>;<lines>;<nchmod>"
         log = entries joined by ","    lines = per line  <hextext>/<hexraw>/...  joined by "," *)
 let parse_entry (s : string) : entry =
   match String.split_on_char ':' s with
@@ -59,11 +59,12 @@ let run_request (toks : string list) : string =
   let evs = times (nint ()) event in
   match run_script a s only file groups evs before with
   | None -> "panic"
-  | Some (((log, disk), nops), lines) ->
+  | Some ((((log, disk), nops), lines), nchmod) ->
     String.concat "," (List.map (fun (ln, d) -> show_descr ln d) log) ^ ";" ^
     hex_of_bytes disk ^ ";" ^ string_of_int (int_of_nat nops) ^ ";" ^
     String.concat "," (List.map (fun (raws, text) ->
-        String.concat "/" (hex_of_bytes text :: List.map hex_of_bytes raws)) lines)
+        String.concat "/" (hex_of_bytes text :: List.map hex_of_bytes raws)) lines) ^
+    ";" ^ string_of_int (int_of_nat nchmod)
 
 let handle (args : string list) : string =
   match args with
